@@ -595,10 +595,13 @@ func hasLimitCheck(w *World, m *chainModel, f *ssa.Function, st *ssa.Store, stor
 	return found, detail
 }
 
-func ruleC05Limit(r *Run) {
+func ruleC05Limit(r *Run)      { c05Limit(r, false) }
+func ruleC05LimitRoute(r *Run) { c05Limit(r, true) }
+
+func c05Limit(r *Run, onlyRoute bool) {
 	w := r.W
 	rule := "C05-LIMIT"
-	r.Floor(rule, 5)
+	r.Floor(rule, 2)
 	m := newChainModel(w)
 	e := &seqEngine{w}
 	// every field that contributes a whole list to an executed chain
@@ -606,6 +609,9 @@ func ruleC05Limit(r *Run) {
 		fv   *types.Var
 		name string
 	}{{m.rtHandlers, "Route.handlers"}, {m.rHandlers, "Router.handlers"}, {m.rNoRoute, "Router.noRoute"}, {m.rNoAllowed, "Router.noAllowed"}}
+	if onlyRoute {
+		fields = fields[:1]
+	}
 	for _, fd := range fields {
 		for _, f := range w.Funcs {
 			for i, st := range storesToField(f, fd.fv) {
@@ -636,6 +642,9 @@ func ruleC05Limit(r *Run) {
 				r.Check(rule, construct, w.InstrPos(st), ok, detail)
 			}
 		}
+	}
+	if onlyRoute {
+		return
 	}
 	// the executed sum global + route + 1 must be covered where it is assembled or by the parts
 	disp := w.Fn("rux", "Router.handleHTTPRequest")
